@@ -109,13 +109,18 @@ def run(args):
                 if subprocess.run(["git", "-C", tmp, "apply", p]).returncode != 0:
                     return "%-60s PATCH DOES NOT APPLY" % os.path.relpath(p, VERIF), 1
                 detected = []
-                for prop in props:
-                    r = subprocess.run([os.path.join(VERIF, "run.py"), "check", prop, "--quick", "--repo", tmp],
-                                       stdout=subprocess.PIPE, stderr=subprocess.STDOUT)
-                    if r.returncode == 1 and b"VIOLATION property=" in r.stdout:
-                        detected.append(prop)
+                note = ""
+                for attempt in (1, 2):          # a second look before "not detected" is believed (a loaded machine)
+                    for prop in props:
+                        r = subprocess.run([os.path.join(VERIF, "run.py"), "check", prop, "--quick", "--repo", tmp],
+                                           stdout=subprocess.PIPE, stderr=subprocess.STDOUT)
+                        if r.returncode == 1 and b"VIOLATION property=" in r.stdout:
+                            detected.append(prop)
+                            break
+                    if detected:
+                        note = " (on the second run)" if attempt == 2 else ""
                         break
-                return ("%-60s %s" % (os.path.relpath(p, VERIF), "detected by " + detected[0] if detected
+                return ("%-60s %s" % (os.path.relpath(p, VERIF), "detected by " + detected[0] + note if detected
                                        else "NOT DETECTED by " + ",".join(props)), 0 if detected else 1)
             finally:
                 shutil.rmtree(tmp, ignore_errors=True)
